@@ -5,7 +5,7 @@
 From Coq Require Import List Arith Bool ZArith QArith Reals.
 From P Require Import Geom Comb.
 From Gen Require Import GenRefine GenArea GenPos GenDecomp.
-From P Require Import Model Volume Main.
+From P Require Import Model Volume Conform Main Decomp73.
 Import ListNotations.
 Open Scope nat_scope.
 
@@ -74,6 +74,31 @@ Theorem children_positive :
 Proof. exact refine_column_positive_. Qed.
 Print Assumptions children_positive.
 
+(** conformity.  [sn] stands for the dict sidenodes (a predicate on unordered pairs of corner
+    names); [refined_sides sn col] is the list refine() builds for column [col].
+    (a) per column: the subdivision refine() chooses leaves, after cancelling interior edges,
+        exactly the sides of the column, each unsplit or split at the mid-side node of its
+        unordered name pair according to sn;
+    (b) two columns sharing a side take the same decision and see the same edges reversed:
+        no hanging node on a shared side. *)
+Theorem refine_boundary_named :
+  forall (sn : nat * nat -> bool) (col : list nat) (cid : nat),
+  length col = 3 \/ length col = 4 -> refined_sides sn col <> [] ->
+  exists istart e, refine_children (length col) (refined_sides sn col) = Some (istart, e) /\
+    eseteq (boundary (all_edges (length col) istart e)) (expected_boundary (length col) (refined_sides sn col)) = true /\
+    map (gname_edge col cid) (expected_boundary (length col) (refined_sides sn col)) = flat_map (gside sn col) (seq 0 (length col)).
+Proof. exact refine_boundary_named_. Qed.
+Print Assumptions refine_boundary_named.
+Theorem refine_conforming :
+  forall (sn : nat * nat -> bool) (A B : list nat) i j,
+  i < length A -> j < length B ->
+  node_at A i = node_at B ((j + 1) mod length B) ->
+  node_at A ((i + 1) mod length A) = node_at B j ->
+  nmem i (refined_sides sn A) = nmem j (refined_sides sn B) /\
+  gside sn B j = map gswap (rev (gside sn A i)).
+Proof. intros sn A B i j Hi Hj H1 H2. split; [exact (refine_same_decision_ sn A B i j Hi Hj H1 H2)|exact (refine_conforming_ sn A B i j H1 H2)]. Qed.
+Print Assumptions refine_conforming.
+
 (** decomposition entries (every rotation) and the fan (3..16 nodes) keep the parent's
     boundary unsplit and use every interior edge exactly twice, in opposite directions *)
 Theorem decompose_tables_boundary :
@@ -85,6 +110,29 @@ Theorem triangulate_fan_boundary :
   forall n, 3 <= n <= 16 -> subdivision_ok n 0 [] (fan n) = true.
 Proof. exact fan_boundary_. Qed.
 Print Assumptions triangulate_fan_boundary.
+
+(** decompose_column's (7, 3) case.  The faithful model refutes positivity/conformity without a
+    side condition: a weakly convex heptagon whose straight nodes are exactly [straight] (three of
+    them, two adjacent) for which the chosen subdivision has a child of zero area -- the
+    witness (0,0),(1,0),(3,0),(4,0),(4,4),(2,4),(0,4) is the one replayed on the implementation
+    (finding decompose_columns:7gon-3straight-adjacent).  The area identity above still holds there. *)
+Theorem decompose_7_3_refuted :
+  exists (cs : list pt) (c : pt) (straight : list nat) (start : nat) (e : entry) (ch : child),
+    length cs = 7 /\ weakly_convex_ccw cs /\ (0 < poly_area cs)%R /\
+    (forall i, i < 7 -> (In i straight <-> straight_at cs i)) /\
+    decompose_model 7 straight = DSub start e /\ In ch e /\ child_area cs c start ch = 0%R.
+Proof. exact decompose_7_3_refuted_. Qed.
+Print Assumptions decompose_7_3_refuted.
+(** guarded version: when the three straight nodes lie on three different sides of a strictly
+    convex quadrilateral A B C D (at A+t0(B-A), B+t1(C-B), C+t2(D-C)), then for every rotation r
+    of the node numbering every new column has positive signed area *)
+Theorem decompose_7_3_positive :
+  forall (A B C D : pt) (t0 t1 t2 : R) (c : pt) (r start : nat) (e : entry),
+  convex_ccw [A; B; C; D] -> (0 < t0 < 1)%R -> (0 < t1 < 1)%R -> (0 < t2 < 1)%R -> r < 7 ->
+  decompose_model 7 (straight_layout r) = DSub start e ->
+  Forall (fun ch => (0 < child_area (rotl r (hept_layout A B C D t0 t1 t2)) c start ch)%R) e.
+Proof. exact decompose_7_3_positive_. Qed.
+Print Assumptions decompose_7_3_positive.
 
 (** volume (over Q): the rock volume of a column -- the sum of block_volume over its blocks
     -- depends only on area, surface and the bottom of the lowest layer *)
